@@ -219,6 +219,122 @@ theorem C01_decimal_correct (feats : Features) (hcompact : feats.compact = false
   have hb' : (⟨feats, fmt, false⟩ : Cfg).exponentBase = 10 := hb
   rw [(spec_forms hF ⟨feats, fmt, false⟩ (by omega) (by omega) (by omega) n hmany hx.2.2).2]
 
+/-! ## truncated mantissas decided by the two-pass wrapper -/
+
+/-- **a truncated decimal `Number` on which Eisel–Lemire's wrapper answers validly**: the first 19 significant digits
+`w` and the exponent `q` bracket the exact value, `w·10^q ≤ V < (w+1)·10^q` (`number_truncated_of_syntax`), and
+`lemire_wrapper_all` says a valid answer is `roundNE` of every value in that interval — so the pipeline returns `litBits` of
+the whole digit content without consulting the slow path. -/
+theorem numberToFloat_truncated_decided {F : FTy} (hF : IsLemireFloat F) (slow : SlowRadix) (c : Cfg)
+    (hcompact : c.feats.compact = false) (hr : c.mantissaRadix = 10) (hb : c.exponentBase = 10)
+    (n : Number) (hmany : n.manyDigits = true) (hs : PlainSlices c n)
+    (hN : 19 < (sigBytes n.integer n.fraction).length)
+    (hw : n.mantissa = ofDigits 10 (dv 10 ((sigBytes n.integer n.fraction).take 19)))
+    (hwlt : n.mantissa < 10 ^ 19)
+    (hq : n.exponent = ((sigBytes n.integer n.fraction).length : Int) - 19 + n.explicitExp -
+      ((n.fraction.getD []).length : Int))
+    (hE1 : -(2 ^ 40 : Int) ≤ n.explicitExp) (hE2 : n.explicitExp ≤ 2 ^ 40)
+    (hl1 : n.integer.length < 2 ^ 60) (hl2 : (n.fraction.getD []).length < 2 ^ 60)
+    (hdec : ∃ fp, Lemire.lemire F (numOf n) false = .ok fp ∧ 0 ≤ fp.exp) :
+    numberToFloat slow c F n false = some (numberBits c F.fmt n) := by
+  obtain ⟨p, eb, lay⟩ := layout_of hF
+  obtain ⟨fp, hm, hv⟩ := hdec
+  have h40 : (2 : Int) ^ 40 = 1099511627776 := by norm_num
+  have h60 : (2 : Nat) ^ 60 = 1152921504606846976 := by norm_num
+  have h63 : (2 : Int) ^ 63 = 9223372036854775808 := by norm_num
+  -- the specification side
+  have hbits : numberBits c F.fmt n = litBits F.fmt 10 10 (numberLit c n) := by
+    unfold numberBits numberLit
+    simp only [hmany, if_true, hr, hb]
+    rfl
+  have hlit := litBits_exact lay (r := 10) (b := 10) (by decide) (by decide) (by decide) (numberLit c n)
+    (by have := numberLit_digits_lt c n; rwa [hr] at this)
+  -- the digits
+  have hvs : ValidDigits 10 (sigBytes n.integer n.fraction) := by
+    have := valid_sigBytes hs.validInt hs.validFrac
+    rwa [hr] at this
+  obtain ⟨z, hz⟩ := sig_decomp n.integer n.fraction
+  have hD : ofDigits 10 ((numberLit c n).intDigits ++ (numberLit c n).fracDigits) =
+      ofDigits 10 (dv 10 (sigBytes n.integer n.fraction)) := by
+    rw [hs.intDigits, hs.fracDigits, hr]
+    have : dv 10 n.integer ++ dv 10 (n.fraction.getD []) = dv 10 (n.integer ++ n.fraction.getD []) := by
+      unfold dv; rw [List.map_append]
+    rw [this, hz, ofDigits_dv_zeros]
+  have hfl : (numberLit c n).fracDigits.length = (n.fraction.getD []).length := by
+    rw [hs.fracDigits, dv_length]
+  have hE : (numberLit c n).exp = n.explicitExp := rfl
+  have hsplit := C01Number.ofDigits_dv_take_drop 10 (sigBytes n.integer n.fraction) 19
+  have htail := ofDigits_dv_lt (valid_drop hvs 19)
+  have hNle : (sigBytes n.integer n.fraction).length ≤ n.integer.length + (n.fraction.getD []).length := by
+    have := congrArg List.length hz
+    rw [List.length_append, List.length_append, List.length_replicate] at this
+    omega
+  generalize hsig : sigBytes n.integer n.fraction = sig at *
+  generalize hfle : (n.fraction.getD []).length = fl at *
+  generalize hS : ofDigits 10 (dv 10 sig) = S at *
+  generalize htl : ofDigits 10 (dv 10 (sig.drop 19)) = tail at *
+  rw [← hw, List.length_drop] at hsplit
+  rw [List.length_drop] at htail
+  generalize hA : sig.length - 19 = A at *
+  -- the interval
+  have hqI : IsI64 n.exponent := by unfold IsI64; rw [hq]; constructor <;> omega
+  have key : ∀ m : Nat, (powFrac 10 n.exponent m) = (m * 10 ^ n.exponent.toNat, 10 ^ (-n.exponent).toNat) :=
+    fun m => powFrac_eq 10 _ m
+  have hexp : n.exponent.toNat + (fl + (-n.explicitExp).toNat) = A + n.explicitExp.toNat + (-n.exponent).toNat := by
+    rw [hq]; omega
+  have hV : litFrac 10 10 (numberLit c n) = (S * 10 ^ n.explicitExp.toNat, 10 ^ fl * 10 ^ (-n.explicitExp).toNat) := by
+    rw [litFrac_eq, hD, hfl, hE]
+  have hsound := C01.lemire_wrapper_all F hF n.exponent hqI n.mantissa n.isNegative
+    (by have : (10 : Nat) ^ 19 < 2 ^ 64 := by decide
+        omega) (fp := fp)
+    (by
+      have : numOf n = ⟨n.mantissa, n.exponent, n.isNegative, true⟩ := by unfold numOf; rw [hmany]
+      rw [← this]; exact hm) hv
+    (litFrac 10 10 (numberLit c n)).1 (litFrac 10 10 (numberLit c n)).2
+    (litFrac_den_pos (by decide) (by decide) _)
+    (by
+      rw [key, hV]
+      simp only
+      calc n.mantissa * 10 ^ n.exponent.toNat * (10 ^ fl * 10 ^ (-n.explicitExp).toNat)
+          = n.mantissa * 10 ^ (n.exponent.toNat + (fl + (-n.explicitExp).toNat)) := by
+            rw [Nat.pow_add, Nat.pow_add]; ring
+        _ = n.mantissa * 10 ^ A * (10 ^ n.explicitExp.toNat * 10 ^ (-n.exponent).toNat) := by
+            rw [hexp, Nat.pow_add, Nat.pow_add]; ring
+        _ ≤ S * (10 ^ n.explicitExp.toNat * 10 ^ (-n.exponent).toNat) :=
+            Nat.mul_le_mul_right _ (by omega)
+        _ = S * 10 ^ n.explicitExp.toNat * 10 ^ (-n.exponent).toNat := by ring)
+    (by
+      rw [key, hV]
+      simp only
+      calc S * 10 ^ n.explicitExp.toNat * 10 ^ (-n.exponent).toNat
+          = S * (10 ^ n.explicitExp.toNat * 10 ^ (-n.exponent).toNat) := by ring
+        _ ≤ (n.mantissa + 1) * 10 ^ A * (10 ^ n.explicitExp.toNat * 10 ^ (-n.exponent).toNat) :=
+            Nat.mul_le_mul_right _ (by
+              have : (n.mantissa + 1) * 10 ^ A = n.mantissa * 10 ^ A + 10 ^ A := by ring
+              omega)
+        _ = (n.mantissa + 1) * 10 ^ (n.exponent.toNat + (fl + (-n.explicitExp).toNat)) := by
+            rw [hexp, Nat.pow_add, Nat.pow_add]; ring
+        _ = (n.mantissa + 1) * 10 ^ n.exponent.toNat * (10 ^ fl * 10 ^ (-n.explicitExp).toNat) := by
+            rw [Nat.pow_add, Nat.pow_add]; ring)
+  -- the pipeline
+  unfold numberToFloat
+  have hfast : FastPath.tryFastPath (smallSetOf c.feats) F c.mantissaRadix c.exponentBase (numOf n) = .none := by
+    unfold FastPath.tryFastPath FastPath.isFastPath
+    rw [hr, hb]
+    simp only [ne_eq, not_true_eq_false, if_false]
+    have : (numOf n).manyDigits = true := hmany
+    simp [this]
+  rw [hfast]
+  simp only
+  have hmp : moderatePath c F (numOf n) false = .ok fp := by
+    unfold moderatePath
+    rw [hr, backend_lemire _ hcompact]
+    exact hm
+  rw [hmp]
+  simp only
+  rw [if_neg (by omega), toNative_eq F fp n.isNegative hsound, hbits, hlit]
+  rfl
+
 /-- **full statement** (a `Prop`): the same for **every** input, truncated mantissas (more than 19 significant digits)
 included, and for `compact` builds. Missing for it: the `many_digits = true` case — the two-pass wrapper of `lemire` is
 proved (`lemire_wrapper_all`), but its invalid-marked estimates (`compute_error`) are not yet characterised, the
